@@ -1,8 +1,9 @@
-(* C02 — StepMania reading.  Property theorems only: each is closed by [exact] from Proofs/SMProofs.v, or by
+(* C02 — StepMania reading.  Property theorems only: each is closed by [exact] from Proofs/SM*.v, or by
    vm_compute for obligations on the tables regenerated from the live classes. *)
 From Coq Require Import String ZArith QArith Qround Qabs List Bool.
 From RV Require Import Base.PyNum Timing.Snapper Timing.Snap Timing.TimingMap Timing.Reseat Timing.Integrate
-  Timing.Domain Formats.SMText Formats.SM Formats.SMSpec Generated.Tables Proofs.SMWitness Proofs.SMProofs Proofs.SMReadProofs.
+  Timing.Domain Formats.SMText Formats.SM Formats.SMSpec Formats.SMReadDom Generated.Tables Proofs.SMWitness Proofs.SMProofs Proofs.SMReadProofs
+  Proofs.SMCanon Proofs.SMReadWitness Proofs.SMReadRefuted Proofs.SMReadWhole.
 Import ListNotations.
 Open Scope Q_scope.
 
@@ -87,23 +88,70 @@ Theorem C02_read_times_integrate : forall (data : text) (init : Q) (bcss : list 
      /\ holds_at init l (n_holds st) (o_holds n) /\ holds_at init l (n_rolls st) (o_rolls n)).
 Proof. exact (read_notes_times live_conf C02_snapper_table_ok). Qed.
 
-(* ---- sm_read_denotes, PARTIAL.  Full statement (not proved for all texts):
-       forall txt d, sm_denote txt = Some d -> c02_dom d = true -> dialect_ok txt d = true -> has_stops_tag d = true ->
-         exists s, sm_read live_conf current txt = Some s /\ read_spec 0 d s = true.   (no #STOPS guard any more)
-   Proved: row placement (the three slicing theorems), pairing, chart enumeration, and — new — the lifting of C10's closed
-   form to object times (C02_read_times_integrate: every returned object sits at time_of of its row's Snap, lengths are
-   tail - head).  Missing: the token-level equivalence of the two parsers on the dialect (comment stripping / strip /
-   split interplay), completeness (every symbol yields an object), and domainb from the 1/48 grid (checked per run).  The full statement is evaluated in Coq on every generated text
-   of every run (Corr/RunC02.v: model = implementation, and read_spec on the implementation's result). ---- *)
-Theorem C02_sm_read_denotes_partial : forall (rows : list text) (k b : Z) (j : nat),
-  (0 < k)%Z -> (0 <= b)%Z -> Z.of_nat (length rows) = (4 * k)%Z -> (j < Z.to_nat k)%nat ->
-  nth_error (beat_slice live_conf rows b) j = nth_error rows (Z.to_nat (b * k) + j) /\
-  inject_Z b + inject_Z (Z.of_nat j) / inject_Z k == 4 * inject_Z (b * k + Z.of_nat j) / inject_Z (4 * k).
-Proof.
-  exact (fun rows k b j Hk Hb Hl Hj =>
-           conj (slice_row_index live_conf C02_metronome_is_4 rows k b j (Z.lt_le_incl _ _ Hk) Hb Hl Hj)
-                (slice_row_beat_arith k b (Z.of_nat j) Hk)).
-Qed.
+(* ==== THE WHOLE-FILE THEOREM ====
+   For EVERY text in the decidable domain c02_domb (Formats/SMReadDom.v — a boolean predicate on the text, the one the
+   correspondence runner evaluates as `wf` on every generated text): the text is well formed for the reference semantics,
+   SMMapSet.read succeeds, and its result is exactly what sm_denote defines (file_rel): one chart per #NOTES item in file
+   order with its header fields; for each of the seven kinds (hits, holds, rolls, mines, lifts, fakes, keysounds) the
+   returned list is a PERMUTATION of the denoted objects (column, time, length) — nothing invented, nothing dropped — where
+   the denoted time of a row is Integrate.time_of of its position (row r of n in measure m = beat 4m + 4r/n) under the
+   #BPMS script from -#OFFSET and a hold/roll is paired with the '3' that closes it; every tempo change of the file is in
+   each chart's tempo list at its millisecond position; the runner's oracle read_spec (tolerance 0) accepts the result.
+   Table obligations: the live constants are the reference ones, the snapper table is well formed and contains every k/48
+   (this is how the C10 timing domain `domainb` is DERIVED from the 1/48 grid instead of being assumed). *)
+Theorem C02_grid48_in_table : grid48_in_table Tables.snapper_table = true.
+Proof. vm_compute. reflexivity. Qed.
+
+Theorem C02_sm_read_denotes : forall txt : text, c02_domb txt = true ->
+  exists d s, sm_denote txt = Some d /\ sm_read live_conf current txt = Some s /\ file_rel d s /\ read_spec 0 d s = true
+              /\ s_offset s = Some (d_beat0 d).
+Proof. exact (sm_read_spec_conf live_conf _ _ C02_constants_are_reference C02_snapper_table_ok C02_grid48_in_table). Qed.
+
+(* file_rel spelled out (what "exactly what sm_denote defines" means) *)
+Theorem C02_file_rel_meaning : forall d s, file_rel d s <->
+  Forall2 (fun dc c =>
+    header_match 0 dc c = true
+    /\ (forall kl, In kl (chart_objs c) -> Permutation.Permutation (snd kl) (dnotes_of (fst kl) (d_notes dc)))
+    /\ (forall tp : Q * Q * Q, In tp (d_tempo d) -> exists b, In b (c_bpms c) /\ fst (fst b) == snd tp)
+    /\ (forall kl, In kl (chart_objs c) -> forall x y, In x (snd kl) -> In y (snd kl) -> cmp_ok note4_lt x y))
+  (d_charts d) (s_maps s).
+Proof. exact (fun d s => conj (fun H => H) (fun H => H)). Qed.
+
+(* ---- the statement over the FORMER domain (well formed + c02_dom + dialect_ok) is FALSE of the faithful model: seven
+   corners, each a concrete text (replayed on the real code: same behaviour), each excluded by one clause of c02_domb ---- *)
+Theorem C02_sm_read_refuted_semicolon_in_comment :
+  exists txt, in_c02_domain txt = true /\ c02_domb txt = false /\ reads_other txt = true.
+Proof. exact sm_read_refuted_semicolon_in_comment. Qed.
+Theorem C02_sm_read_refuted_trailing_comment_tag :
+  exists txt, in_c02_domain txt = true /\ c02_domb txt = false /\ read_fails txt = true.
+Proof. exact sm_read_refuted_trailing_comment_tag. Qed.
+Theorem C02_sm_read_refuted_nested_notes_tag :
+  exists txt, in_c02_domain txt = true /\ c02_domb txt = false /\ read_fails txt = true.
+Proof. exact sm_read_refuted_nested_notes_tag. Qed.
+Theorem C02_sm_read_refuted_bad_samplestart :
+  exists txt, in_c02_domain txt = true /\ c02_domb txt = false /\ read_fails txt = true.
+Proof. exact sm_read_refuted_bad_samplestart. Qed.
+Theorem C02_sm_read_refuted_tag_blank :
+  exists txt, in_c02_domain txt = true /\ c02_domb txt = false /\ reads_other txt = true.
+Proof. exact sm_read_refuted_tag_blank. Qed.
+Theorem C02_sm_read_refuted_dup_offset :
+  exists txt, in_c02_domain txt = true /\ c02_domb txt = false /\ read_fails txt = true.
+Proof. exact sm_read_refuted_dup_offset. Qed.
+Theorem C02_sm_read_refuted_bpms_after_stops :
+  exists txt, in_c02_domain txt = true /\ c02_domb txt = false /\ read_fails txt = true.
+Proof. exact sm_read_refuted_bpms_after_stops. Qed.
+
+(* non-vacuity of c02_domb: two charts (dance-single and kb7-single), holds and rolls across measures, a mid-measure tempo
+   change, comments, every symbol 1 2 3 4 M L F K *)
+Example C02_example_two_charts :
+  c02_domb w_read_two_charts = true /\
+  match sm_denote w_read_two_charts with
+  | Some d => (length (d_charts d) =? 2)%nat && (length (d_tempo d) =? 2)%nat
+              && (10 <=? length (flat_map d_notes (d_charts d)))%nat
+              && forallb (fun k => existsb (fun n => kind_eqb (dn_kind n) k) (flat_map d_notes (d_charts d)))
+                         [KHit; KHold; KRoll; KMine; KLift; KFake; KKey]
+  | None => false end = true.
+Proof. exact sm_read_example_two_charts. Qed.
 
 (* ---- former defect (OLD_stops_none, before d64b5ab): a text without a #STOPS tag was not read (AttributeError);
    the current reader reads it and returns what the format says ---- *)
